@@ -64,7 +64,24 @@ func exec(line string) (res h.Result) {
 		}
 	}
 	res.Class = fmt.Sprintf("adv-n%d-honestfin%d", s.N, nfin)
-	res.Oracle = dkgnet.JointOracle(members, houts, s.T, nil, nil, h.NewRng(1))
+	// A line with ORACLE answers (O.…) puts the session layer into a world the pipeline never enters: the honest
+	// members' keys of this run signed responses in another run, although genPub draws a key per Grouping call
+	// (pinned by c05_other_sessions_shape). The session layer is NOT safe there (Props/C05Other.lean
+	// session_layer_needs_fresh_keys; corpus/C05/004 replays that run on the real code): such lines are compared
+	// with the model only.
+	reused := false
+	if w[3] != "-" {
+		for _, d := range strings.Split(w[3], ";") {
+			if kv := strings.SplitN(d, "=", 2); len(kv) == 2 && strings.HasPrefix(kv[1], "O.") {
+				reused = true
+			}
+		}
+	}
+	if reused {
+		res.Class = fmt.Sprintf("adv-reusedkeys-n%d-honestfin%d", s.N, nfin)
+	} else {
+		res.Oracle = dkgnet.JointOracle(members, houts, s.T, nil, nil, h.NewRng(1))
+	}
 	if res.Oracle != "" {
 		return
 	}
@@ -532,6 +549,28 @@ func gen(tier string, rng *h.Rng, emit func(string)) {
 					if e[0] == 'r' && h.Atoi(p[0]) != b && h.Atoi(p[1]) != b {
 						k, i := h.Atoi(p[0]), h.Atoi(p[1])
 						injs = append(injs, injection{q, []string{fmt.Sprintf("PR.%d.%d.%d", k, b, b)}, false, i})
+					}
+				}
+				emit(build(seed(), n, b, injs))
+			}
+			// replay of a whole EARLIER Grouping call the way the pipeline runs it (every member under a key of that
+			// call only: genPub): b's old dealing and the honest members' old approvals; and equivocation backed by
+			// those approvals. Nothing of it verifies under this call's keys.
+			for _, equivocate := range []bool{false, true} {
+				var injs []injection
+				for q, e := range ev {
+					p := strings.Split(e[1:], ".")
+					if e[0] == 'd' && h.Atoi(p[0]) == b && h.Atoi(p[1]) != b {
+						i := h.Atoi(p[1])
+						if equivocate {
+							injs = append(injs, injection{q, []string{fmt.Sprintf("D.%d.%d.%d.good%d", b, b, i, 30+i)}, true, i})
+						} else {
+							injs = append(injs, injection{q, []string{fmt.Sprintf("FD.%d.%d.%d", b, i, b)}, true, i})
+						}
+					}
+					if e[0] == 'r' && h.Atoi(p[0]) != b && h.Atoi(p[1]) != b {
+						k, i := h.Atoi(p[0]), h.Atoi(p[1])
+						injs = append(injs, injection{q, []string{fmt.Sprintf("FR.%d.%d.%d", k, b, b)}, false, i})
 					}
 				}
 				emit(build(seed(), n, b, injs))
